@@ -212,6 +212,25 @@ def step (s : St) (toks : List String) : St × String :=
            (s, toString (Sif.Spec.C18.epochSharesOK pre ch))
          | _, _ => (s, "bad-op")
        | _, _ => (s, "bad-op"))
+  | "chk" :: "c18.l1bucketl" :: _tag :: lock :: nch :: rest =>
+      -- rest = <changes> <pre dump> || <ledger triples>: eligibility from the ledger's update heights
+      (match parseNat lock, parseNat nch with
+       | some lock, some nch =>
+         let r := rest.drop (4 * nch)
+         let i := r.idxOf "||"
+         let rec triplesB : List String → Option (List (String × String × Int))
+           | [] => some []
+           | a :: b :: c :: t => do
+               let h ← parseInt c
+               let r ← triplesB t
+               pure ((a, b, h) :: r)
+           | _ => none
+         match parseChanges (rest.take (4 * nch)) [], parseDump (r.take i), triplesB (r.drop (i + 1)) with
+         | some ch, some pre, some lg =>
+           let pre := { pre with params := { pre.params with rewardsLockPeriod := lock } }
+           (s, toString (Sif.Spec.C18.epochSharesByLedgerOK pre ch lg))
+         | _, _, _ => (s, "bad-op")
+       | _, _ => (s, "bad-op"))
   | "chk" :: "c18.l1elig" :: _tag :: lock :: height :: nch :: rest =>
       (match parseNat lock, parseInt height, parseNat nch with
        | some lock, some height, some nch =>
